@@ -8,6 +8,8 @@ use serde_json::{json, Value};
 pub mod c01;
 pub mod c03;
 pub mod c04;
+pub mod c05;
+pub mod c06;
 pub mod c12;
 pub mod c14;
 pub mod func;
@@ -16,6 +18,7 @@ pub mod c16;
 pub mod c17;
 pub mod c18;
 pub mod c19;
+pub mod c20;
 pub mod hist;
 
 /// `got` must be isomorphic (C03's notion) to `want`.  Undecided searches are counted, never flagged.
